@@ -166,17 +166,7 @@ class VC:
         rel = set(term_syms(neg))
         for h in self.pc_terms:
             rel |= term_syms(h)
-        axs = []
-        if CTX.sums:
-            # sums occurring only inside the bodies of relevant sums become relevant in the next round
-            for _round in range(4):
-                axs = L.sum_axioms(rel)
-                rel2 = set(rel)
-                for ax in axs:
-                    rel2 |= term_syms(ax.t)
-                if rel2 == rel:
-                    break
-                rel = rel2
+        axs = L.sum_axioms(rel) if CTX.sums else []
         hyps = list(self.pc_terms) + list(CTX.side) + [ax.t for ax in axs]
         r, backend, model, reason = self._solve(hyps, neg)
         status = 'proved' if r == z3.unsat else ('failed' if r == z3.sat else 'unknown')
@@ -218,6 +208,20 @@ class VC:
             if r == z3.sat:
                 return r, 'z3', self._model_summary(s.model()), None
         reason = s.reason_unknown()
+        # nlsat on the slice (fast on pure nonlinear real problems; gives up at once on anything else)
+        try:
+            s2 = z3.Tactic('qfnra-nlsat').solver()
+            s2.set('timeout', min(4000, self.timeout_ms))
+            for h in sl:
+                s2.add(h)
+            s2.add(neg)
+            r2 = s2.check()
+            if r2 == z3.unsat:
+                return r2, 'z3:qfnra-nlsat', None, None
+            if r2 == z3.sat and full_is_slice:
+                return r2, 'z3:qfnra-nlsat', self._model_summary(s2.model()), None
+        except z3.Z3Exception:
+            pass
         # cvc5 second opinion (first on the slice for unsat, then on the full set)
         for hs, is_full in ((sl, full_is_slice), (hyps, True)):
             if is_full and hs is sl and not full_is_slice:
@@ -320,6 +324,24 @@ class VC:
             self.assume(stmt)
         return ok
 
+    def sum_linear(self, name, n, f, terms, at):
+        """Lemma by linearity of finite sums (trusted meta-theorem): if f(j) == sum_i c_i * g_i(j) at the generic
+        index `at` (proved as an obligation; c_i must not depend on j), then Sum_n f == sum_i c_i * Sum_n g_i.
+        Returns (Sum f, [Sum g_i])."""
+        rhs = 0
+        for c, g in terms:
+            rhs = rhs + c * g(at)
+        ok = self.ensure(name, Sym.lift(f(at)) == rhs if not isinstance(f(at), (int, float)) else f(at) == rhs, kind='lemma')
+        Sf = L.sum_term(n, f)
+        Sg = [L.sum_term(n, g) for _, g in terms]
+        if ok:
+            tot = 0
+            for (c, _), sg in zip(terms, Sg):
+                tot = tot + c * sg
+            self.assume(Sym.lift(Sf) == tot)
+            self.assumptions_used.add('finite sums are linear (meta-theorem) - used by ' + name)
+        return Sf, Sg
+
     def cover(self, name):
         """Reachability/vacuity guard: the current path condition is satisfiable."""
         self._sync_side()
@@ -351,35 +373,7 @@ class VC:
         self.unlisted_reads.extend(self.interp.reads_unlisted)
 
 
-_SYM_CACHE = {}
-
-
-def term_syms(t):
-    """Names of the uninterpreted constants/functions occurring in a z3 term."""
-    key = t.get_id()
-    hit = _SYM_CACHE.get(key)
-    if hit is not None and hit[0].eq(t):     # ids are only unique among live terms: keep the term alive
-        return hit[1]
-    out = set()
-    seen = set()
-    stack = [t]
-    while stack:
-        x = stack.pop()
-        i = x.get_id()
-        if i in seen:
-            continue
-        seen.add(i)
-        if z3.is_app(x):
-            d = x.decl()
-            if d.kind() == z3.Z3_OP_UNINTERPRETED:
-                out.add(d.name())
-            stack.extend(x.children())
-        elif z3.is_quantifier(x):
-            stack.append(x.body())
-    if len(_SYM_CACHE) > 100000:
-        _SYM_CACHE.clear()
-    _SYM_CACHE[key] = (t, out)
-    return out
+from .sym import term_syms, _SYM_CACHE  # noqa: E402
 
 
 def slice_hyps(hyps, goal):
